@@ -17,7 +17,7 @@ CHECKS = {
 CHECKS["C19"] = dict(
    category="model_checking", engine="A explicit-state over the real maps + C controlled scheduler for the concurrent clause",
    technique="explicit-state BFS to a fixpoint of canonical heap states of the real generated maps, reference insertion-ordered map as oracle",
-   text="Breadth-first search over ALL operation sequences of the 19-operation alphabet (3 keys, 2 values, 4 predicates, failing Map callback) on the real ASTNodes, RuleASTNodes (zero value, New..., Make...) and Constraints objects until no new canonical state (order backing array incl. stale tail, len, data) appears; this covers histories of any length, not only 6. Every observer and every callback visit log is compared with a 30-line reference map in every state; merges are validated by recomputing successors. Concurrent clause (merged from the scheduler variant): all 4-tuples (2 threads x 2 ops) and triples (3 x 1) over a 9-operation alphabet on the three real maps from two initial states, ALL interleavings at lock points, each history checked for linearizability by brute force and by the race detector as per-execution monitor.",
+   text="Breadth-first search over ALL operation sequences of the 19-operation alphabet (3 keys, 2 values, 4 predicates, failing Map callback) on the real ASTNodes, RuleASTNodes (zero value, New..., Make...) and Constraints objects until no new canonical state (order backing array incl. stale tail, len, data) appears; this covers histories of any length, not only 6. Every observer and every callback visit log is compared with a 30-line reference map in every state; merges are validated by recomputing successors. Concurrent clause (merged from the scheduler variant): all 4-tuples (2 threads x 2 ops) and triples (3 x 1) over a 10-operation alphabet (incl. MarshalJSON) on the three real maps from two initial states, ALL interleavings at lock points, each history checked for linearizability by brute force and by the race detector as per-execution monitor.",
    note="Trusted: the reference map; the state key is validated as a bisimulation on every merge. Map's behaviour on callback error (earlier entries stay updated) is taken from the generated code's documented contract.",
    design="4/C19")
 CHECKS["C10"] = dict(
@@ -30,7 +30,7 @@ CHECKS["C10"] = dict(
 CHECKS["C17"] = dict(
    category="exploration", engine="B small-scope exhaustive + BFS over reference PDA states",
    technique="exhaustive enumeration of all file contents up to 7/8 bytes over 5 symbols x all positions against a reference renderer; BFS over reference PDA states for error positions",
-   text="(a) Every file content of length 0..7 (thorough 8) over {a,space,tab,LF,CR} with every position inside it is rendered through the public DocumentError API; no rendering may panic, and for consistently terminated files line number, left-trimmed text and caret column must equal a reference renderer; line-length families around the 200-byte cut. (b) For every reference-PDA state (nesting <= 4/6) and every string <= 4/5 symbols: the error position of the first dead byte and of an early end of input. (c) planted validation violations (with C01 generators).",
+   text="(a) Every file content of length 0..7 (thorough 8) over {a,space,tab,LF,CR} with every position inside it is rendered through the public DocumentError API; no rendering may panic, and for consistently terminated files line number, left-trimmed text and caret column must equal a reference renderer; line-length families around the 200-byte cut. (b) For every reference-PDA state (nesting <= 4/6) and every string <= 4/5 symbols: the error position of the first dead byte and of an early end of input. (c) every rule-free schema <= 3/4 nodes and every depth-5 spine with ONE planted violation at every node (value of another kind, unknown key) plus 14 single-rule breakers in 9 contexts: the reported position is the start of the planted value / key. (d) one error value rendered, moved with SetIndex and rendered again must show what a fresh error shows (all contents <= 5/6 bytes x all position pairs).",
    note="Trusted: the 100-line reference renderer. Not asserted: mixed LF/CR files' line numbers, caret inside leading blanks or on blank-only lines, positions for blank-only input.",
    design="4/C17")
 CHECKS["C01"] = dict(
@@ -43,7 +43,7 @@ CHECKS["C01"] = dict(
 CHECKS["C02"] = dict(
    category="exploration", engine="B small-scope enumeration with reference rule semantics",
    technique="exhaustive enumeration of rule sets x parameter variants x examples x boundary probes against a three-valued reference (math/big, regexp, calendar)",
-   text="For every scalar kind, all rule sets of up to 5 (thorough 7) distinct rule names with all parameter variants from boundary sets, for every example candidate that satisfies them, validated against probe values on, just inside and just outside every bound, alternative numeral spellings, escaped strings, exhaustive date grids, datetime field boundaries, uuid shapes and curated email/uri lists, and every other JSON kind; the verdict must equal the reference rule semantics.",
+   text="For every scalar kind, all rule sets of up to 5 (thorough 7) distinct rule names with all parameter variants from boundary sets, for every example candidate that satisfies them, validated against probe values on, just inside and just outside every bound, alternative numeral spellings, escaped strings, exhaustive date grids, datetime field boundaries, uuid shapes and curated email/uri lists, and every other JSON kind; the verdict must equal the reference rule semantics. Second family: every ordered pair of annotated scalar slots as sibling properties and sibling array items, validated against every combination of (good | each rule-breaking value) for both siblings.",
    note="Trusted: ref/refv + ref/decimal. Not asserted: non-ASCII string lengths, alternative spellings for const/enum, RFC 3339 corners left to the Go standard library, email/uri beyond curated lists.",
    design="4/C02")
 
@@ -57,35 +57,35 @@ CHECKS["C08"] = dict(
 CHECKS["C04"] = dict(
    category="exploration", engine="B small-scope enumeration of slots x contexts x single-rule corruptions",
    technique="exhaustive enumeration of annotated slots in nesting contexts with every single-rule corruption of the example; renderer offset map as position oracle",
-   text="39 annotated slots (every rule family incl. formats, enum, or, type references, item counts, empty containers under type lists) x 17 nesting contexts (incl. siblings carrying type lists of their own) x every single-rule corruption of the example: Check must fail and report the byte offset of the corrupted value; conversely all shapes <= 3 (4) nodes with every scalar leaf replaced by every slot, and every slot in every context: whenever Check succeeds, validating the example text succeeds.",
+   text="39 annotated slots (every rule family incl. formats, enum, or, type references, item counts, empty containers under type lists) x 17 nesting contexts (incl. siblings carrying type lists of their own) x every single-rule corruption of the example: Check must fail and report the byte offset of the corrupted value; conversely all shapes <= 3 (4) nodes with every scalar leaf replaced by every slot, and every slot in every context: whenever Check succeeds, validating the example text succeeds; EVERY ordered pair of slots as siblings (both good; one of the two corrupted in every way: Check must fail at the corrupted one, also when asked a second time on the same object).",
    note="Trusted: the renderer's offset map. Error codes are not asserted; positions inside added types are not asserted.",
    design="4/C04")
 
 CHECKS["C14"] = dict(
    category="exploration", engine="B small-scope enumeration of texts x separators x trailing texts",
    technique="exhaustive product of accepted texts x separators x directive-like trailing texts; every truncation classified by the reference PDA",
-   text="Every accepted text of a corpus built from all rule-free JS-core renderings <= 3 (4) nodes in two layouts, annotated and noted variants ending in every token class, type shortcuts, enum texts and regex tokens, followed by each of 9 separators and 11 trailing texts admitted by the statement: Len must be exactly len(S) for schema, JSON document (trailing characters allowed), enum and regex roles; every lexically incomplete truncation must make Len fail.",
+   text="Every accepted text of a corpus built from all rule-free JS-core renderings <= 3 (4) nodes in two layouts, annotated and noted variants ending in every token class, type shortcuts, enum texts and regex tokens, followed by each of 9 separators and 11 trailing texts admitted by the statement: Len must be exactly len(S) for schema, JSON document (trailing characters allowed), enum and regex roles, on fresh objects and on objects used before (after Check/GetAST/Values/Pattern, after the document stream was read to its end); every lexically incomplete truncation must make Len fail.",
    note="Trusted: reference PDA for incompleteness. Not generated: trailing text that could continue S; blank-only inputs.",
    design="4/C14")
 
 CHECKS["C06"] = dict(
    category="exploration", engine="B exhaustive strings/values x whitespace placements, reference tokenizer, cross-scanner differential",
    technique="exhaustive enumeration of valid JSON texts (all strings <= 5/6 symbols; all values <= 4/5 nodes x all placements of <= 2/3 whitespace gaps; depth-8 families; every escape form in values and keys) with an event-automaton oracle and a three-scanner differential",
-   text="For every enumerated valid JSON text the public NextLexeme stream is replayed through an event automaton that checks nesting, termination by io.EOF, spans inside the input, literal/key spans equal to the reference tokenizer's, container spans bracket to bracket, and that the value rebuilt from events alone equals the reference parse; the schema scanner and (for arrays of scalars) the enum scanner, driven through verif hooks on the same text in four embeddings, must produce the same (type, begin, end) sequence modulo new-line events.",
+   text="For every enumerated valid JSON text the public NextLexeme stream is replayed through an event automaton that checks nesting, termination by io.EOF, spans inside the input, literal/key spans equal to the reference tokenizer's, container spans bracket to bracket, and that the value rebuilt from events alone equals the reference parse; the schema scanner and (for arrays of scalars) the enum scanner, driven through verif hooks on the same text in four embeddings, must produce the same (type, begin, end) sequence modulo new-line events; for pairs of small documents read in turns, ALL merges of the two NextLexeme call sequences must deliver each document's own events.",
    note="Trusted: ref/jsonpda tokenizer/parser (cross-checked against encoding/json on every input). Exponent numerals are excluded from the cross-scanner relation.",
    design="4/C06")
 
 CHECKS["C18"] = dict(
    category="exploration", engine="B small-scope enumeration, named-vs-inline differential",
    technique="exhaustive enumeration of enum value lists x layouts and of all compilable regex sources up to 4/5 symbols; metamorphic named == inline == regexp",
-   text="All enum value lists of <= 3 (4) items over 7 literals (duplicates included) in 7 layouts: the named rule and the inline list must give identical verdicts on 14 probes, duplicates must make the rule's Check fail, Values()/GetAST() must list the literals in source order. All strings <= 4 (5) over a 16-symbol regex alphabet that regexp.Compile accepts: the regex type, the inline {regex} rule and regexp.MatchString must agree on all 156 probe strings <= 3 over {a,b,/,\",\\}; Example() matches the pattern; Len equals the /P/ token length with trailing text.",
+   text="All enum value lists of <= 3 (4) items over 7 literals (duplicates included) in 7 layouts: the named rule and the inline list must give identical verdicts on 14 probes, duplicates must make the rule's Check fail, Values()/GetAST() must list the literals in source order; one rule object referenced twice in a schema and added to a second schema must behave like the inline list and be unchanged afterwards. All strings <= 4 (5) over a 16-symbol regex alphabet that regexp.Compile accepts: the regex type, the inline {regex} rule and regexp.MatchString must agree on all 156 probe strings <= 3 over {a,b,/,\",\\}; Example() matches the pattern; Len equals the /P/ token length with trailing text.",
    note="Trusted: Go regexp. The third-party example generator ignores anchors, so 'Example matches P' is asserted only for patterns without inner anchors.",
    design="4/C18")
 
 CHECKS["C09"] = dict(
    category="exploration", engine="B small-scope enumeration of type graphs with a least-fixpoint reference; worker-death = non-termination",
    technique="exhaustive enumeration of all type graphs over 1-3 (4) user types x edge forms x missing-node subsets against a least-fixpoint inhabitation model; process-level crash/hang detection",
-   text="Every type graph over a root (5 forms) and up to 3 (thorough 4) user types whose bodies range over scalar, alias, or-shortcut, array, allOf parent, additionalProperties type, key shortcut and one/two-slot objects (required / optional / array / or / nested / nullable references), with every subset (quick n=3: every single type) left un-added, plus ring / chain-into-ring / diamond families up to 6 types: Check must fail with 1302 naming a missing type exactly when a reachable type is missing, UsedUserTypes must equal the names in the root text, Check must reject exactly when the least-fixpoint model leaves the root uninhabited and must not report recursion when every type is inhabited, and on every accepted graph Check, Validate and Example must return (a worker death or 40 s without progress is a violation).",
+   text="Every type graph over a root (5 forms) and up to 3 (thorough 4) user types whose bodies range over scalar, alias, or-shortcut, array, allOf parent (at the type's root, on an array element, on a property value), additionalProperties type, key shortcut and one/two-slot objects (required / optional / array / or / nested / nullable references), with every subset (quick n=3: every single type) left un-added, plus ring / chain-into-ring / diamond families up to 6 types: Check must fail with 1302 naming a missing type exactly when a reachable type is missing, UsedUserTypes must equal the names in the root text, Check must reject exactly when the least-fixpoint model leaves the root uninhabited and must not report recursion when every type is inhabited, and on every accepted graph Check, Validate and Example must return (a worker death or 40 s without progress is a violation).",
    note="Trusted: ref/typegraph. Not asserted: graphs whose uninhabited types are not required by the root; which of several problems of one graph is reported first. Known finding: multi-hop required recursion is accepted (pinned by the repository's own TestSchema_Example).",
    design="4/C09")
 
@@ -106,7 +106,7 @@ CHECKS["C15"] = dict(
 CHECKS["C16"] = dict(
    category="exploration", engine="B small-scope enumeration over the merged schema corpus with an expected-AST model",
    technique="exhaustive enumeration of generated schemas; structural equality of GetAST with the AST computed from the generator's abstract schema",
-   text="For every Check-accepted case of the merged generators plus an AST-specific family covering every rule name, notes, nested or/enum/allOf items, decimal/precision, value/key shortcuts with manual rules: the tree returned by GetAST (keys, shortcut flags, token kinds, literal values, schema types by the documented precedence, rules with names/values/order/nested items and manual/generated marks, notes) must equal the model tree; inherited allOf properties must be absent.",
+   text="For every Check-accepted case of the merged generators plus an AST-specific family covering every rule name, notes, nested or/enum/allOf items, decimal/precision, value/key shortcuts with manual rules: the tree returned by GetAST (keys, shortcut flags, token kinds, literal values, schema types by the documented precedence, rules with names/values/order/nested items and manual/generated marks, notes) must equal the model tree, for the canonical spelling and for the same schema aligned with tabs; inherited allOf properties must be absent.",
    note="Trusted: ref/astmodel, whose naming conventions are calibrated on the pinned tree (the statement fixes what must be present, not the spelling of token types).",
    design="4/C16")
 
@@ -134,7 +134,7 @@ CHECKS["C12"] = dict(
 CHECKS["C11"] = dict(
    category="model_checking", engine="A/D exhaustive operation histories on live objects + environment-choice exploration (pool answers, map iteration orders) through the build overlay",
    technique="exhaustive enumeration of all operation histories up to depth 3/4 over a pool of live objects against fresh-object results with returned-value snapshots; exhaustive single (thorough: double) deviations of every sync.Pool answer and of every dynamic range-over-map order",
-   text="All histories of <= 3 (thorough 4) operations from a 46-operation alphabet over live Schema/Document/Enum/Regex objects (incl. an embedded document with trailing text and Validate / NextLexeme on live document objects that have only been through the rewinding Len/Check) (plus 12-fold repetitions and round-robins): every result must equal the fresh-object result and every value handed out must be unchanged at the end; for histories <= 2 every pool answer is additionally deviated (fresh / oldest object). The library is built through an overlay that rewrites every range-over-map into iteration over an explicitly ordered key list: for a corpus of scenarios (a fixed slice of the C03/C09 generators in quick, all in thorough; multi-shortcut objects, allOf chains, errors located inside added types and allOf parents) every single (thorough: pair of) dynamic iteration order deviation (descending, rotations) must leave verdict, code, position, file and renderability of errors, AST, example and used types unchanged; static sites never reached with two keys are reported as uncovered.",
+   text="All histories of <= 3 (thorough 4) operations from a 57-operation alphabet over live Schema/Document/Enum/Regex objects (incl. lexically broken schema and enum rule, an enum rule object shared with the schema that uses it, an embedded document with trailing text, Validate / NextLexeme on live document objects and Len/Check on consumed ones) (plus 12-fold repetitions and round-robins): every result must equal the fresh-object result and every value handed out must be unchanged at the end; for histories <= 2 every pool answer is additionally deviated (fresh / oldest object); ALL merges of the NextLexeme call sequences of two live documents must deliver each document's own events. The library is built through an overlay that rewrites every range-over-map into iteration over an explicitly ordered key list: for a corpus of scenarios (a fixed slice of the C03/C09 generators in quick, all in thorough; multi-shortcut objects, allOf chains, errors located inside added types and allOf parents) every single (thorough: pair of) dynamic iteration order deviation (descending, rotations) must leave verdict, code, position, file and renderability of errors, AST, example and used types unchanged; static sites never reached with two keys are reported as uncovered.",
    note="Trusted: the overlay rewrite (sound: every produced order is a legal Go order). Message text is not compared. Consumed Document objects are not re-validated.",
    design="4/C11")
 
